@@ -280,11 +280,11 @@ theorem perm_post (c : Cfg) (fs fs' : FS) (hi : FS.Inv fs) (p : Text) (perms uid
       permBitsOK (fs'.node i) perms = true ∧ ownerOK (fs'.node i) uid gid = true ∧
       (fs'.node i).dir = (fs.node i).dir ∧ (fs'.node i).data = (fs.node i).data ∧
       (fs'.node i).mode &&& modeType = (fs.node i).mode &&& modeType ∧
-      ShapeEq fs fs' ∧ ∀ j, j ≠ i → fs'.node j = fs.node j := by
+      ShapeEq fs fs' ∧ (∀ j, j ≠ i → fs'.node j = fs.node j) ∧ (fs'.node i).te = (fs.node i).te := by
   obtain ⟨i, hg, rfl⟩ := mpd_ok h
   have hl := getNode_live hi c p i hg
   have hsh := shape_setAttrs fs i (permMode perms) (permMode_bit27 perms) uid gid
-  refine ⟨i, by simp [follow, hg], by simp [follow, getNode_shape hsh c p, hg], ?_, ?_, ?_, ?_, ?_, hsh, ?_⟩
+  refine ⟨i, by simp [follow, hg], by simp [follow, getNode_shape hsh c p, hg], ?_, ?_, ?_, ?_, ?_, hsh, ?_, ?_⟩
   · simp [node_setAttrs, hl, permBitsOK, unixPerm_permMode]
   · simp [node_setAttrs, hl, ownerOK]
   · simp [node_setAttrs, hl]
@@ -303,6 +303,7 @@ theorem perm_post (c : Cfg) (fs fs' : FS) (hi : FS.Inv fs) (p : Text) (perms uid
         simp [a1, a2, a3, a4]
       simp [hp]
   · intro j hj; simp [node_setAttrs, hj]
+  · simp [node_setAttrs, hl]
 
 /-- the state a known mutator leaves, for the kinds that are followed by `mutatePermissions` -/
 theorem mutateOne_inv (c : Cfg) (fs fs' : FS) (m : Mutation) (hi : FS.Inv fs)
@@ -441,6 +442,34 @@ theorem hardlink_post (c : Cfg) (hc : c.posix = false) (fs fs' : FS) (m : Mutati
   obtain ⟨i, _, _, _, _, _, _, _, hsh, _⟩ := perm_post c fs1 fs' hi1 m.path m.perms m.uid m.gid h2
   refine ⟨t, by rw [entryOf_shape hsh]; exact he, ?_⟩
   simp only [follow, getNode_shape hsh c m.source] at hf ⊢; exact hf
+
+/-- **mutation_post (empty-file), partial**: when the entry at the path (after the parent
+directories were made) is not a symbolic link and not package-backed (`te = none` — the hypothesis
+whose negation is F13d), a successful iteration leaves at the path a regular node of size 0 with
+the declared permission bits and owner: the whole Spec post-condition. -/
+theorem empty_file_post_partial (c : Cfg) (hc : c.posix = false) (fs fs' : FS) (m : Mutation) (hi : FS.Inv fs)
+    (ht : m.type = tEmptyFile)
+    (hnl : ∀ fs0, ensureParentDirectory c fs m.path = (fs0, none) → ∀ pi a,
+      getNode c fs0 (dir m.path) = .ok pi → fs0.lookup pi (base m.path) = some a →
+      (fs0.node a).isSymlink = false ∧ (fs0.node a).te = none)
+    (hsplit : parts m.path = parts (dir m.path) ++ [base m.path]) (hp : m.path ≠ dot ∧ dir m.path ≠ dot)
+    (h : mutateOne c fs m = (fs', none)) :
+    ∃ i, follow c fs' m.path = some i ∧ (fs'.node i).dir = false ∧ (fs'.node i).isSymlink = false ∧
+      effectiveSize c (fs'.node i) = 0 ∧ permBitsOK (fs'.node i) m.perms = true ∧
+      ownerOK (fs'.node i) m.uid m.gid = true := by
+  rw [mutateOne_emptyFile c fs m ht] at h
+  obtain ⟨fs1, h1, h2⟩ := andThen_ok (liftE_ok h)
+  unfold mutateEmptyFile at h1
+  obtain ⟨fs0, h0, hc1⟩ := andThen_ok h1
+  have hi0 : FS.Inv fs0 := by have := inv_ensureParent c fs m.path hi; rw [h0] at this; exact this
+  obtain ⟨pi, a, hg, hd, hl, hda, hsa, hdata, hte, hi1⟩ :=
+    createEmpty_post c hc fs0 fs1 hi0 m.path (hnl fs0 h0) hc1
+  have hres := resolve_entry hc hg hd hl hsa hsplit hp
+  obtain ⟨i, hf1, hf', hpb, hob, hdir, hdat, _, hsh, _, hte'⟩ := perm_post c fs1 fs' hi1 m.path m.perms m.uid m.gid h2
+  have hia : i = a := by simp [follow, hres] at hf1; exact hf1.symm
+  subst hia
+  refine ⟨i, hf', by rw [hdir]; exact hda, by rw [hsh.sym i]; exact hsa, ?_, hpb, hob⟩
+  simp [effectiveSize, hte', hte, hdat, hdata]
 
 /-- **applied in order**: when a whole list of mutations succeeds, the last one was applied — as one
 iteration of the loop — to the state its predecessors produced (which satisfies the graph
